@@ -150,23 +150,20 @@ def _p_norm(p: float, critical_pairs: list = []):
     result = 0.0
     for l in critical_pairs:
         for [[x0, y0], [x1, y1]] in zip(l, l[1:]):
-            if y0 == y1:
-                # horizontal line segment
-                result += (np.abs(y0) ** p) * (x1 - x0)
-                continue
-            # slope is well-defined
-            slope = (y1 - y0) / (x1 - x0)
-            b = y0 - slope * x0
-            # segment crosses the x-axis
+            # integral of |linear function| ** p over [x0, x1], written in terms of
+            # the absolute end values so that it is real and correct for negative
+            # values, sign changes and every p
+            a0, a1 = np.abs(y0), np.abs(y1)
+            dx = x1 - x0
             if (y0 < 0 and y1 > 0) or (y0 > 0 and y1 < 0):
-                z = -b / slope
-                ev_x1 = (slope * x1 + b) ** (p + 1) / (slope * (p + 1))
-                ev_x0 = (slope * x0 + b) ** (p + 1) / (slope * (p + 1))
-                ev_z = (slope * z + +b) ** (p + 1) / (slope * (p + 1))
-                result += np.abs(ev_x1 + ev_x0 - 2 * ev_z)
-            # segment does not cross the x-axis
+                # segment crosses the x-axis: two triangles-like pieces add up
+                result += dx * (a0 ** (p + 1) + a1 ** (p + 1)) / ((p + 1) * (a0 + a1))
+            elif np.abs(a1 - a0) <= 1e-6 * max(a0, a1):
+                # (nearly) horizontal line segment; the closed form below would cancel
+                result += (0.5 * (a0 + a1)) ** p * dx
             else:
-                ev_x1 = (slope * x1 + b) ** (p + 1) / (slope * (p + 1))
-                ev_x0 = (slope * x0 + b) ** (p + 1) / (slope * (p + 1))
-                result += np.abs(ev_x1 - ev_x0)
+                # segment does not cross the x-axis
+                result += (
+                    dx * np.abs(a1 ** (p + 1) - a0 ** (p + 1)) / ((p + 1) * np.abs(a1 - a0))
+                )
     return (result) ** (1.0 / p)
